@@ -1,4 +1,137 @@
-import Hive.Spec.Serix
-/-! # C01 (binary serix part) — placeholder until the proofs land -/
+import Hive.Proofs.SerixRoundTrip
+/-!
+# C01 (binary serix part) — the codec round-trips every encodable value
+
+Property theorems only.  Model: `Hive/Model/Serix.lean` (serix `API.Encode` / `API.Decode` after the
+`fix:` commits listed there), specification side (`Ty.wf`, `canon`): `Hive/Spec/Serix.lean`.
+
+All theorems quantify over every schema (any nesting, every length-prefix width, every array rule),
+every value, both validation modes and every trailing input `rest`.
+-/
 namespace Hive.Serix
+
+/-- **C01, binary form.**  For every well-formed schema and every value `Encode` accepts (with or
+without validation), `Decode` of the produced bytes — followed by anything — yields the canonical
+form of the value (the ordering the settings tell the encoder to impose, timestamps saturated into
+the int64 range) and reports exactly the number of bytes produced.
+
+`b.length < 2^32`: the length marker of an `optional` field is `uint32(len)`; encodings of 4 GiB and
+more are outside the theorem (the marker would be truncated). -/
+theorem C01_decode_encode (t : Ty) (v : Val) (o : Opts) (b : Bytes) (hwf : t.wf = true)
+    (h : encode t v o = .ok b) (hlen : b.length < 2 ^ 32) :
+    ∀ rest, decode t (b ++ rest) o = .ok (canon t v o, b.length) :=
+  rt_ty t hwf true v o b h hlen
+
+/-- The same without trailing input: the whole buffer is consumed. -/
+theorem C01_decode_encode_exact (t : Ty) (v : Val) (o : Opts) (b : Bytes) (hwf : t.wf = true)
+    (h : encode t v o = .ok b) (hlen : b.length < 2 ^ 32) :
+    decode t b o = .ok (canon t v o, b.length) := by
+  have := C01_decode_encode t v o b hwf h hlen []
+  simpa using this
+
+/-- **Determinism w.r.t. Go's map iteration order.**  A map value given as any permutation of its
+entries encodes to the same bytes (any key and value types, any rules, both validation modes; no
+well-formedness needed). -/
+theorem C01_encode_perm_invariant (lp : LP) (r : Rules) (k v : Ty) (o : Opts) (kvs kvs' : List Val)
+    (b : Bytes) (hp : kvs.Perm kvs') (h : encode (.map lp r k v) (.l kvs) o = .ok b) :
+    encode (.map lp r k v) (.l kvs') o = .ok b := by
+  unfold encode at h ⊢
+  simp only [enc] at h ⊢
+  split at h
+  · contradiction
+  · rename_i hk
+    have hk' : mapKeysOk kvs' = true := mapKeysOk_perm hp (by simpa using hk)
+    simp only [Res.bind_eq_ok, Res.require_eq_ok_iff, exists_and_left, exists_const] at h
+    obtain ⟨hb, data, hdata, hseq⟩ := h
+    obtain ⟨data', hdata', hperm⟩ := mapMRes_perm hp hdata
+    rw [encSeq_ordered_perm hperm] at hseq
+    simp only [hk', Bool.not_true, Bool.false_eq_true, if_false, ← hp.length_eq, hb, Res.require_true,
+      Res.ok_bind, hdata', hseq]
+
+/-- The unrestricted statement (no `wf`): false for the code as it is, see the witnesses below. -/
+def C01_binary_statement : Prop :=
+  ∀ (t : Ty) (v : Val) (o : Opts) (b : Bytes), encode t v o = .ok b → b.length < 2 ^ 32 →
+    ∀ rest, decode t (b ++ rest) o = .ok (canon t v o, b.length)
+
+/-! ## Witnesses: why `wf` excludes what it excludes (replayed on the real code by the check's corpus) -/
+
+/-- An `optional` pointer to a type with an empty encoding: present-but-empty is written as the
+marker 0 and decodes to nil (known finding, inherent in the wire format). -/
+theorem C01_optional_empty_witness :
+    let t : Ty := .struct none (.cons true (.ptr (.struct none .nil)) .nil)
+    encode t (.l [.some (.l [])]) ⟨false, false⟩ = .ok [0, 0, 0, 0] ∧
+    decode t [0, 0, 0, 0] ⟨false, false⟩ = .ok (.l [.nil], 4) := by
+  decide
+
+/-- Elements with empty encodings under "lexical order + no duplicates": the validating encoder
+accepts two equal elements, the validating decoder rejects the bytes (known finding). -/
+theorem C01_empty_dups_witness :
+    let t : Ty := .slice .u8 { lex := true, noDups := true } (.struct none .nil)
+    encode t (.l [.l [], .l []]) ⟨true, false⟩ = .ok [2] ∧ decode t [2] ⟨true, false⟩ = .err := by
+  decide
+
+/-- Two distinct timestamps beyond the int64-nanosecond range used as map keys saturate to the same
+stamp: Encode accepts, Decode reports a duplicate key (saturation is documented design). -/
+theorem C01_time_keys_witness :
+    let t : Ty := .map .u8 {} .time (.uint 1)
+    let v : Val := .l [.kv (.i 9223372036854775808) (.n 1), .kv (.i 9223372036854775809) (.n 2)]
+    ∃ b, encode t v ⟨false, false⟩ = .ok b ∧ decode t b ⟨false, false⟩ = .err :=
+  ⟨[2, 255, 255, 255, 255, 255, 255, 255, 127, 1, 255, 255, 255, 255, 255, 255, 255, 127, 2], by decide, by decide⟩
+
+theorem C01_binary_statement_fails_witness : ¬ C01_binary_statement := by
+  intro h
+  have h1 := h (.struct none (.cons true (.ptr (.struct none .nil)) .nil)) (.l [.some (.l [])]) ⟨false, false⟩
+    [0, 0, 0, 0] (by decide) (by decide) []
+  revert h1
+  decide
+
+/-- The one place where `Encode` itself panics (validation, must-occur rule, nil interface element):
+`checkArrayMustOccur` dereferences the element before `encodeInterface` can refuse it. -/
+theorem C01_mustoccur_nil_panic_witness :
+    let shape : Ty := .iface .u8 (.cons 100 (.ptr (.struct (some ⟨.u8, 100⟩) .nil)) .nil)
+    encode (.slice .u8 { mustOccur := [100] } shape) (.l [.nil]) ⟨true, false⟩ = .panic ∧
+    encode (.slice .u8 { mustOccur := [100] } shape) (.l [.nil]) ⟨false, false⟩ = .err := by
+  decide
+
+/-! ## Non-vacuity: fixture types are well-formed and round-trip concretely -/
+
+/-- The `Container{Shapes []Shape}` fixture of serix_test.go (must-occur, lexical order, no
+duplicates, at most one of each type) in the schema language. -/
+def fixtureContainer : Ty :=
+  .struct (some ⟨.u8, 5⟩) (.cons false
+    (.slice .u8 { max := 10, noDups := true, lex := true, one8 := true, mustOccur := [100, 101] }
+      (.iface .u8
+        (.cons 100 (.ptr (.struct (some ⟨.u8, 100⟩) (.cons false (.uint 1) .nil)))
+        (.cons 101 (.ptr (.struct (some ⟨.u8, 101⟩) (.cons false (.uint 1) .nil)))
+        (.cons 102 (.ptr (.struct (some ⟨.u8, 102⟩) (.cons false (.uint 2) .nil))) .nil))))) .nil)
+
+/-- A struct with an embedded struct, an optional pointer, a sorted map and an auto-sorted slice. -/
+def fixtureMixed : Ty :=
+  .struct none
+    (.emb false (.cons false (.uint 1) (.cons false (.int 2) .nil))
+    (.cons true (.ptr (.struct (some ⟨.u32, 70000⟩) (.cons false .time .nil)))
+    (.cons false (.map .u16 { min := 1, max := 4 } (.str .u8 0 0) (.bytes .u32 0 0))
+    (.cons false (.slice .u8 { lex := true, autoSort := true } (.str .u8 0 0)) .nil))))
+
+example : fixtureContainer.wf = true := by decide
+example : fixtureMixed.wf = true := by decide
+
+example :
+    let v : Val := .l [.l [.alt 100 (.some (.l [.n 10])), .alt 101 (.some (.l [.n 5])),
+      .alt 102 (.some (.l [.n 3]))]]
+    encode fixtureContainer v ⟨true, false⟩ = .ok [5, 3, 100, 10, 101, 5, 102, 3, 0] ∧
+    decode fixtureContainer [5, 3, 100, 10, 101, 5, 102, 3, 0, 0xff] ⟨true, false⟩ = .ok (v, 9) := by
+  decide
+
+/-- The map is given in the "wrong" order and the slice unsorted: the decoder returns the canonical
+form (elements ordered by their *encoded* bytes: the one-byte string sorts before the two-byte one). -/
+example :
+    let v : Val := .l [.l [.n 7, .i (-2)], .nil,
+      .l [.kv (.x [98]) (.x [1]), .kv (.x [97]) (.x [])], .l [.x [97, 98], .x [122]]]
+    encode fixtureMixed v ⟨true, false⟩ =
+      .ok [7, 0xfe, 0xff, 0, 0, 0, 0, 2, 0, 1, 97, 0, 0, 0, 0, 1, 98, 1, 0, 0, 0, 1, 2, 1, 122, 2, 97, 98] ∧
+    canon fixtureMixed v ⟨true, false⟩ = .l [.l [.n 7, .i (-2)], .nil,
+      .l [.kv (.x [97]) (.x []), .kv (.x [98]) (.x [1])], .l [.x [122], .x [97, 98]]] := by
+  decide
+
 end Hive.Serix
